@@ -2478,7 +2478,8 @@ def ex_python(ctx):
                         a0 = mm.start(4) + fa.start(2)
                         alias = lit_value(l2.code[a0:a0 + len(fa.group(2))], True)
                     default_none = bool(fa.group(4))
-                esc = nm.endswith('_') and nm[:-1] in PY_KEYWORDS
+                # python.rs appends `_` when the snake-cased name (convert_case drops the outer underscores) is a keyword: class_ -> class__
+                esc = nm.endswith('_') and (nm[:-1] in PY_KEYWORDS or nm[:-1].strip('_') in PY_KEYWORDS)
                 mem = new_member(nm, l2.no, escaped=esc, wire_key=alias if alias is not None else nm,
                                  key_binding='alias' if alias is not None else 'name', type=ty, type_raw=ty_raw,
                                  default='Field(' + l2.code[mm.start(4):mm.end(4)] + ')' if mm.group(3) else None,
